@@ -16,6 +16,7 @@ SWALLOW an I/O error of the file object and go on as if the probe had found noth
                                       | seek(15,1) read(9) seek(-15,1) read(6) seek(-38-n,1) read(8) [seek(-8,1) tell]]
                                   | seek(0) read(8)
                 __fill_missing    seek(metadata+8) read(16) [header at 0: get_size seek(end-32) read(8)]
+                                  [a footer and size < 32: raise error — `size - 32` is never negative below]
                 __fix_brokenness  seek(start) (seek(-24,1) read(8) [seek(-8,1) tell])*
                                   seek(data) read(size)
 
@@ -151,10 +152,6 @@ def fixBrokenM : Nat → Nat → FileM Nat
           fixBrokenM fuel p
         else pure start
 
-/-- `fileobj.read(n)` for an `n` that may be negative (read to the end) -/
-def freadInt (n : Int) : FileM Bytes := fun e s =>
-  if n < 0 then fread (s.data.length - s.pos) e s else fread n.toNat e s
-
 /-- `_APEv2Data(fileobj)`: `none` = no tag.  `size` is kept for `APEv2.delete`'s `data.size is not None`
 (always set when a tag was found). -/
 def locateM : FileM (Option Loc) := do
@@ -174,12 +171,13 @@ def locateM : FileM (Option Loc) := do
         let data := endd - size
         let hasHdr := flags / hasHeaderFlag % 2 = 1
         if hasHdr ∧ data < 32 then raise .mutagen
+        else if size < 32 then raise .mutagen               -- size -= 32: "smaller than its footer"
         else do
           let header := if hasHdr then data - 32 else data
           fseek header
           let start ← fixBrokenM header header
           fseek data
-          let _ ← freadInt ((size : Int) - 32)
+          let _ ← fread (size - 32)
           pure (some { start := start, endd := endd, isAtStart := false })
   | .headerAtStart => do
     fseek 8
@@ -192,10 +190,12 @@ def locateM : FileM (Option Loc) := do
       else do
         fseek (32 + size - 32)
         let hasFooter ← readIsApe
-        fseek 0                                              -- __fix_brokenness: start = header = 0
-        fseek 32
-        let _ ← freadInt (if hasFooter then (size : Int) - 32 else size)
-        pure (some { start := 0, endd := 32 + size, isAtStart := true })
+        if hasFooter ∧ size < 32 then raise .mutagen         -- size -= 32: "smaller than its footer"
+        else do
+          fseek 0                                            -- __fix_brokenness: start = header = 0
+          fseek 32
+          let _ ← fread (if hasFooter then size - 32 else size)
+          pure (some { start := 0, endd := 32 + size, isAtStart := true })
 
 /-! ### APEv2.save / APEv2.delete -/
 
